@@ -1,6 +1,7 @@
 module github.com/prometheus/client_golang/tutorials/whatsup
 
-go 1.22.0
+go 1.23.0
+
 toolchain go1.23.7
 
 require (
